@@ -13,8 +13,9 @@ for id in $ids; do
   if ! git -C $WT apply /verif/seeded/$id/patch.diff 2>/dev/null; then echo "$id: PATCH DOES NOT APPLY"; bad=1; continue; fi
   out=$(python3 vx/check.py $prop --repo $WT 2>&1); rc=$?
   lab=$(echo "$out" | grep "failed obligation" | head -1 | sed 's/.*\[\(.*\)\].*/\1/')
-  echo "$id: $prop rc=$rc $lab"
-  [ $rc -eq 1 ] || bad=1
+  want=$(jq -r '.expect_rc // 1' seeded/$id/meta.json)
+  echo "$id: $prop rc=$rc (expected $want) $lab"
+  [ $rc -eq $want ] || bad=1
 done
 git -C /repo worktree remove --force $WT; git -C /repo worktree prune
 exit $bad
